@@ -469,8 +469,10 @@ def vector_span_comparer(comparer_params_eval, student_eval, utils):
     column_vectors = np.array(comparer_params_eval).transpose()
     # rcond=-1 uses machine precision for testing singular values
     # In numpy 1.14+, use rcond=None fo this behavior. (we use 1.6)
-    ols = np.linalg.lstsq(column_vectors, student_eval, rcond=-1)
-    error = np.sqrt(ols[1])
+    # Note that lstsq's own "residuals" output is empty when the given vectors are
+    # linearly dependent (or span the whole space), so compute the residual directly
+    coeffs = np.linalg.lstsq(column_vectors, student_eval, rcond=-1)[0]
+    error = np.linalg.norm(np.asarray(student_eval) - np.dot(column_vectors, coeffs))
 
     # Check that error is nearly zero, using student_eval as a reference
     # when tolerance is specified as a percentage
